@@ -1,6 +1,7 @@
 From Coq Require Import Extraction ExtrOcamlBasic.
 From SV Require Import Model.PeakHelpers Model.Peaks Model.Merging Model.PeakProps Model.Splitting
-  Model.SumWaveform Model.HDR.
+  Model.SumWaveform Model.HDR Model.Widths Model.Groups.
 Extraction Language OCaml.
 Extraction "model.ml" sma find_peaks replace_merged merge_peaks index_of_fraction Qred
-  split_peak split_peak_local_minimum sum_waveform highest_density_region.
+  split_peak split_peak_local_minimum sum_waveform highest_density_region compute_widths center_time
+  find_peak_groups add_lone_hits.
